@@ -8,12 +8,14 @@ using namespace sim;
 using namespace mpt;
 
 enum { OP_CLONE, OP_RELEASE, OP_APPEND, OP_INSERT, OP_SET, OP_SLICE, OP_RESERVE, OP_REDUCE, OP_CUT, OP_BINSERT, OP_BSET,
-       OP_PRINTF, OP_STRING, OP_FLAGGED, OP_SWRITE, OP_DETACH, OP_RETYPE };
+       OP_PRINTF, OP_STRING, OP_FLAGGED, OP_SWRITE, OP_DETACH, OP_RETYPE,
+       OP_X_ASSIGN, OP_X_APPEND, OP_X_INSERT, OP_X_SET, OP_X_RELEASE, OP_X_PRINTF, OP_X_TINSERT, OP_X_UINSERT, OP_X_TSET, OP_X_RESIZE, OP_X_RESERVE, OP_X_DETACH, OP_X_MAP, OP_X_PTRS };
 static const char *const OPS[] = {"CLONE", "RELEASE", "APPEND", "INSERT", "SET", "SLICE", "RESERVE", "REDUCE", "CUT", "BINSERT", "BSET",
-                                  "PRINTF", "STRING", "FLAGGED", "SWRITE", "DETACH", "RETYPE", 0};
+                                  "PRINTF", "STRING", "FLAGGED", "SWRITE", "DETACH", "RETYPE",
+                                  "X_ASSIGN", "X_APPEND", "X_INSERT", "X_SET", "X_RELEASE", "X_PRINTF", "X_TINSERT", "X_UINSERT", "X_TSET", "X_RESIZE", "X_RESERVE", "X_DETACH", "X_MAP", "X_PTRS", 0};
 enum { FL_NONE, FL_ALLOC, FL_INIT };
 static const char *const FAULTS[] = {"none", "allocfail", "initfail", 0};
-enum { K_RAW = 0, K_CHAR = 1, K_TRACKED = 2, K_ARRAYS = 3 };
+enum { K_RAW = 0, K_CHAR = 1, K_TRACKED = 2, K_CXX_BYTES = 3, K_CXX_TRACKED = 4 };
 
 // ---------------------------------------------------------------- tracked elements (C05 ledger)
 static const uint32_t MAGIC = 0x454c454du, POISON = 0xdeadbeefu;
@@ -51,6 +53,30 @@ static const type_traits TRAITS8(8, elem_fini, elem_init), TRAITS16(16, elem_fin
 static const type_traits OTHER16(16, elem_fini, elem_init); // same size and finaliser as TRAITS16: "compatible" by the library's rule
 static const type_traits *tracked_traits(size_t es) { return es == 8 ? &TRAITS8 : es == 24 ? &TRAITS24 : es == 40 ? &TRAITS40 : &TRAITS16; }
 
+// C++ element with the same ledger: used by the container templates (unique_array, typed_array, map)
+struct Tracked {
+	uint32_t magic, id;
+	Tracked() { reg(0); }
+	explicit Tracked(uint32_t value) { reg(value); }
+	Tracked(const Tracked &o) { Harness h; uint32_t v = 0; if (o.magic != MAGIC || !T.live.count(o.id)) pend("copy-from-dead", "C++ element copy-constructed from a dead element (magic %08x id %u)", o.magic, o.id); else v = T.live[o.id]; reg(v); }
+	Tracked &operator=(const Tracked &o) {
+		Harness h;
+		if (magic != MAGIC || !T.live.count(id)) { pend("assign-to-dead", "assignment to memory that holds no live element (magic %08x id %u)", magic, id); return *this; }
+		if (o.magic != MAGIC || !T.live.count(o.id)) { pend("copy-from-dead", "assignment from a dead element"); return *this; }
+		T.live[id] = T.live[o.id];
+		return *this;
+	}
+	bool operator==(const Tracked &o) const { return T.live.count(id) && T.live.count(o.id) && T.live[id] == T.live[o.id]; }
+	~Tracked() {
+		Harness h;
+		if (magic == POISON) { pend("double-destroy", "C++ element destroyed twice (id %u)", id); return; }
+		if (magic != MAGIC || !T.live.count(id)) { pend("destroy-non-element", "destructor called on memory that holds no live element (magic %08x id %u)", magic, id); return; }
+		T.live.erase(id); ++T.finis; magic = POISON;
+	}
+private:
+	void reg(uint32_t v) { Harness h; magic = MAGIC; id = T.next_id++; T.live[id] = v; ++T.inits; }
+};
+
 struct CArr { buffer *buf; };
 static inline array *AR(CArr &c) { return reinterpret_cast<array *>(&c); }
 
@@ -70,7 +96,9 @@ struct ArraysWorld : World {
 
 	void gen(Rng &r, Plan &p, int tier) override {
 		int kind = sim::g_mode == 1 ? (int) r.below(2) : sim::g_mode == 2 ? K_TRACKED : (int) r.below(3);
+		if (r.chance(1, 4)) kind = sim::g_mode == 1 ? K_CXX_BYTES : sim::g_mode == 2 ? K_CXX_TRACKED : (r.chance(1, 2) ? K_CXX_BYTES : K_CXX_TRACKED);
 		p.set("kind", kind);
+		if (kind >= K_CXX_BYTES) { gen_cxx(r, p, tier, kind); return; }
 		p.set("nh", r.range(2, 4));
 		static const int es[] = {8, 16, 24, 40};
 		p.set("esize", kind == K_TRACKED ? r.pick(es) : 1);
@@ -92,6 +120,22 @@ struct ArraysWorld : World {
 		}
 	}
 
+	void gen_cxx(Rng &r, Plan &p, int tier, int kind) {
+		p.set("nh", 3); p.set("esize", 1); p.set("faults", 0);
+		int nops = (int) r.range(1, tier ? 100 : 45);
+		bool allocf = r.chance(1, 3);
+		for (int i = 0; i < nops; ++i) {
+			Op op;
+			static const int b_ops[] = {OP_X_ASSIGN, OP_X_ASSIGN, OP_X_APPEND, OP_X_APPEND, OP_X_INSERT, OP_X_INSERT, OP_X_SET, OP_X_SET, OP_X_RELEASE, OP_X_PRINTF};
+			static const int t_ops[] = {OP_X_ASSIGN, OP_X_ASSIGN, OP_X_TINSERT, OP_X_TINSERT, OP_X_UINSERT, OP_X_TSET, OP_X_TSET, OP_X_RESIZE, OP_X_RESERVE, OP_X_DETACH, OP_X_RELEASE, OP_X_MAP, OP_X_PTRS};
+			op.kind = kind == K_CXX_BYTES ? r.pick(b_ops) : r.pick(t_ops);
+			op.a = r.below(3) | (r.below(3) << 8);
+			op.b = r.below(10) | (r.range(0, 2) << 8) | (r.below(10) << 16) | (r.range(0, 2) << 24);
+			op.c = r.below(100000);
+			if (allocf && r.chance(1, 4)) { op.fault = FL_ALLOC; op.fa = r.range(1, 3); }
+			p.ops.push_back(op);
+		}
+	}
 	// ---------------------------------------------------------------- run state
 	struct Model { bool has = false; std::vector<uint32_t> v; };   // bytes (raw/char) or element values (tracked)
 	int kind = 0; size_t ES = 1; const type_traits *traits = 0;
@@ -165,7 +209,9 @@ struct ArraysWorld : World {
 	}
 
 	void exec(const Plan &p, Log &log, Stats &st) override {
-		kind = (int) p.get("kind") % 3; nh = (int) std::min<int64_t>(std::max<int64_t>(p.get("nh", 2), 1), 4);
+		kind = (int) p.get("kind") % 5; nh = (int) std::min<int64_t>(std::max<int64_t>(p.get("nh", 2), 1), 4);
+		if (kind == K_CXX_BYTES) { exec_cxx_bytes(p, log, st); return; }
+		if (kind == K_CXX_TRACKED) { exec_cxx_tracked(p, log, st); return; }
 		ES = kind == K_TRACKED ? (size_t) p.get("esize", 16) : 1;
 		if (kind == K_TRACKED && ES != 8 && ES != 16 && ES != 24 && ES != 40) ES = 16;
 		traits = kind == K_TRACKED ? tracked_traits(ES) : kind == K_CHAR ? chartraits : 0;
@@ -494,6 +540,212 @@ struct ArraysWorld : World {
 		if (ledger_live()) fail("leak", "%zu block(s) still allocated after the last handle was released: %s", ledger_live(), ledger_describe().c_str());
 		st.hit("elements_constructed", T.inits); st.hit("elements_destroyed", T.finis);
 		log.ev("END inits=%llu finis=%llu", (unsigned long long) T.inits, (unsigned long long) T.finis);
+	}
+
+	// ================================================================ C++ layer: mpt::array on bytes
+	void exec_cxx_bytes(const Plan &p, Log &log, Stats &st) {
+		T = Track();
+		array *A[3]; std::vector<uint8_t> M3[3];
+		for (auto &a : A) { Sut s; a = new array(); }
+		log.ev("arrays kind=cxx-bytes (mpt::array)");
+		st.hit("kind:cxx_bytes");
+		auto verify3 = [&](const char *after, int operated) {
+			check_pending();
+			for (int h = 0; h < 3; ++h) {
+				const array::content *d = A[h]->data();
+				size_t len = d ? d->length() : 0; const uint8_t *base = d ? (const uint8_t *) d->data() : 0;
+				if (d && d->_used > d->_size) fail("state", "after %s: C++ array %d used %zu beyond capacity %zu", after, h, (size_t) d->_used, (size_t) d->_size);
+				bool same = len == M3[h].size() && (!len || !memcmp(base, M3[h].data(), len));
+				if (!same) {
+					size_t k = 0; while (k < len && k < M3[h].size() && base[k] == M3[h][k]) ++k;
+					fail(h == operated ? "wrong-content" : "other-handle-changed", "after %s on C++ array %d: array %d reads %zu bytes, a value-semantics vector holds %zu (first difference at %zu)", after, operated, h, len, M3[h].size(), k);
+				}
+			}
+		};
+		for (const Op &op : p.ops) {
+			int h = (int) (op.a & 0xff) % 3, h2 = (int) ((op.a >> 8) & 0xff) % 3;
+			const array::content *d0 = A[h]->data(); size_t usedb = d0 ? d0->length() : 0, capb = d0 ? d0->_size : 0;
+			size_t pos = sel(op.b & 0xff, (int) ((op.b >> 8) & 0xf), usedb, capb, (uint64_t) op.c), len = sel((op.b >> 16) & 0xff, (int) ((op.b >> 24) & 0xf), usedb, capb, (uint64_t) op.c / 7);
+			if (len > 400) len = 400;
+			if (pos > 600) pos = 600;
+			uint64_t failn = op.fault == FL_ALLOC ? (uint64_t) std::max<int64_t>(op.fa, 1) : 0, fired = 0;
+			bool was_shared = A[h]->shared(); bool nul = (op.c % 5) == 0; int outcome = 0;
+			std::vector<uint32_t> v32 = fresh(len); std::vector<uint8_t> vals(v32.begin(), v32.end());
+			Block src(len, 0); if (len) memcpy(src.p, vals.data(), len);
+			st.hit(std::string("op:") + OPS[op.kind]);
+			switch (op.kind) {
+			case OP_X_ASSIGN: { { Sut s; *A[h] = *A[h2]; } M3[h] = M3[h2]; log.ev("X_ASSIGN %d = %d", h, h2); outcome = 1; break; }
+			case OP_X_RELEASE: { { Sut s; *A[h] = array(); } M3[h].clear(); log.ev("X_RELEASE %d", h); outcome = 1; break; }
+			case OP_X_APPEND: {
+				void *r; { Sut s(failn); r = A[h]->append(len, nul ? 0 : src.p); fired = g.fired; }
+				log.ev("X_APPEND %d len=%zu%s%s -> %s", h, len, nul ? " zeros" : "", fired ? " allocfail" : "", r ? "ok" : "null");
+				if (r) { if (nul) vals.assign(len, 0); M3[h].insert(M3[h].end(), vals.begin(), vals.end()); outcome = 1; }
+				else if (!fired) fail("refused-valid", "C++ array append of %zu bytes refused without allocation fault", len);
+				break;
+			}
+			case OP_X_INSERT: {
+				void *r; { Sut s(failn); r = A[h]->insert(pos, len, nul ? 0 : src.p); fired = g.fired; }
+				log.ev("X_INSERT %d off=%zu len=%zu%s%s -> %s", h, pos, len, nul ? " zeros" : "", fired ? " allocfail" : "", r ? "ok" : "null");
+				if (r) { if (nul) vals.assign(len, 0); if (pos > M3[h].size()) M3[h].resize(pos, 0); M3[h].insert(M3[h].begin() + pos, vals.begin(), vals.end()); outcome = 1; }
+				else if (!fired) fail("refused-valid", "C++ array insert(off %zu, len %zu) refused without allocation fault", pos, len);
+				break;
+			}
+			case OP_X_SET: {
+				void *r; { Sut s(failn); r = A[h]->set(len, nul ? 0 : src.p); fired = g.fired; }
+				log.ev("X_SET %d len=%zu%s%s -> %s", h, len, nul ? " zeros" : "", fired ? " allocfail" : "", r ? "ok" : "null");
+				if (r) { if (nul) vals.assign(len, 0); M3[h] = vals; outcome = 1; }
+				else if (!fired && len) fail("refused-valid", "C++ array set of %zu bytes refused without allocation fault", len);
+				else if (!fired && !len) M3[h].clear();
+				break;
+			}
+			case OP_X_PRINTF: break;
+			}
+			if (fired) st.hit("fault:allocfail");
+			if (was_shared) st.hit("probe:op_on_shared_buffer");
+			st.state(250 + op.kind, (was_shared ? 8 : 0) + (fired ? 4 : 0) + (pos > usedb ? 2 : 0) + (pos + len > capb ? 1 : 0), outcome);
+			verify3(OPS[op.kind], h);
+		}
+		for (auto &a : A) { Sut s; delete a; a = 0; }
+		check_pending();
+		if (ledger_live()) fail("leak", "%zu block(s) still allocated after the last C++ array went away: %s", ledger_live(), ledger_describe().c_str());
+	}
+
+	// ================================================================ C++ layer: typed containers on tracked elements
+	void exec_cxx_tracked(const Plan &p, Log &log, Stats &st) {
+		T = Track(); T.esize = sizeof(Tracked);
+		typed_array<Tracked> *TA[3]; std::vector<uint32_t> MT[3];
+		for (auto &a : TA) { Sut s; a = new typed_array<Tracked>(); }
+		unique_array<Tracked> *UA; std::vector<uint32_t> MU; { Sut s; UA = new unique_array<Tracked>(); }
+		map<int, Tracked> *MP; std::vector<std::pair<int, uint32_t>> MM; { Sut s; MP = new map<int, Tracked>(); }
+		log.ev("arrays kind=cxx-tracked (typed_array / unique_array / map of tracked elements)");
+		st.hit("kind:cxx_tracked");
+		auto read_arr = [&](const Tracked *b, long n, std::vector<uint32_t> &out, std::set<uint32_t> &ids, const char *after, const char *what) {
+			out.clear();
+			for (long i = 0; i < n; ++i) {
+				if (b[i].magic != MAGIC || !T.live.count(b[i].id)) fail("dead-element", "after %s: %s element %ld of %ld is not alive (magic %08x id %u)", after, what, i, n, b[i].magic, b[i].id);
+				out.push_back(T.live[b[i].id]); ids.insert(b[i].id);
+			}
+		};
+		auto verifyT = [&](const char *after, int operated) {
+			check_pending();
+			std::set<uint32_t> ids;
+			for (int h = 0; h < 3; ++h) {
+				std::vector<uint32_t> got; read_arr(TA[h]->begin(), TA[h]->length(), got, ids, after, "typed_array");
+				if (got != MT[h]) {
+					size_t k = 0; while (k < got.size() && k < MT[h].size() && got[k] == MT[h][k]) ++k;
+					fail(h == operated ? "wrong-content" : "other-handle-changed", "after %s on typed_array %d: typed_array %d reads %zu elements, a value-semantics vector holds %zu (first difference at %zu)", after, operated, h, got.size(), MT[h].size(), k);
+				}
+			}
+			{ std::vector<uint32_t> got; read_arr(UA->begin(), UA->length(), got, ids, after, "unique_array"); if (got != MU) fail(operated == 3 ? "wrong-content" : "other-handle-changed", "after %s: unique_array reads %zu elements, model holds %zu", after, got.size(), MU.size()); }
+			{ long n = (long) (MP->end() - MP->begin()); if ((size_t) n != MM.size()) fail("wrong-content", "after %s: map holds %ld entries, model %zu", after, n, MM.size());
+			  for (long i = 0; i < n; ++i) { const map<int, Tracked>::entry &e = MP->begin()[i]; if (e.value.magic != MAGIC || !T.live.count(e.value.id)) fail("dead-element", "after %s: map entry %ld holds a dead element", after, i); ids.insert(e.value.id);
+			    if (e.key != MM[(size_t) i].first || T.live[e.value.id] != MM[(size_t) i].second) fail("wrong-content", "after %s: map entry %ld is (%d -> %x), model (%d -> %x)", after, i, e.key, T.live[e.value.id], MM[(size_t) i].first, MM[(size_t) i].second); } }
+			if (ids.size() != T.live.size()) fail("element-leak", "after %s: %zu elements alive, %zu reachable through the containers (constructed and never destroyed)", after, T.live.size(), ids.size());
+		};
+		for (const Op &op : p.ops) {
+			int h = (int) (op.a & 0xff) % 3, h2 = (int) ((op.a >> 8) & 0xff) % 3;
+			long usedn = TA[h]->length();
+			long pos = (long) sel(op.b & 0xff, (int) ((op.b >> 8) & 0xf), (size_t) usedn, (size_t) usedn + 2, (uint64_t) op.c); if (pos > 40) pos = 40;
+			bool neg = (op.c % 6) == 0 && usedn; long upos = neg ? -(long) (1 + (size_t) op.c % (size_t) usedn) : pos; long apos = neg ? usedn + upos : pos;
+			uint64_t failn = op.fault == FL_ALLOC ? (uint64_t) std::max<int64_t>(op.fa, 1) : 0, fired = 0;
+			uint32_t val = T.next_value++; int outcome = 0; int operated = h;
+			st.hit(std::string("op:") + OPS[op.kind]);
+			switch (op.kind) {
+			case OP_X_ASSIGN: { { Sut s; *TA[h] = *TA[h2]; } MT[h] = MT[h2]; log.ev("X_ASSIGN typed %d = %d", h, h2); outcome = 1; break; }
+			case OP_X_RELEASE: { { Sut s; *TA[h] = typed_array<Tracked>(); } MT[h].clear(); log.ev("X_RELEASE typed %d", h); outcome = 1; break; }
+			case OP_X_TINSERT: {
+				bool ok; { Tracked tmp(val); Sut s(failn); ok = TA[h]->insert(upos, tmp); fired = g.fired; }
+				log.ev("X_TINSERT typed %d pos=%ld%s -> %d", h, upos, fired ? " allocfail" : "", (int) ok);
+				if (ok) { if ((size_t) apos > MT[h].size()) MT[h].resize((size_t) apos, 0); MT[h].insert(MT[h].begin() + apos, val); outcome = 1; }
+				else if (!fired) fail("refused-valid", "typed_array insert at %ld of %ld refused without allocation fault", upos, usedn);
+				break;
+			}
+			case OP_X_UINSERT: {
+				operated = 3; long un = UA->length(); long up = (long) ((size_t) op.c % (size_t) (un + 2));
+				Tracked *t; { Sut s(failn); t = UA->insert(up); fired = g.fired; }
+				log.ev("X_UINSERT unique pos=%ld of %ld%s -> %s", up, un, fired ? " allocfail" : "", t ? "ok" : "null");
+				if (t) { if ((size_t) up > MU.size()) MU.resize((size_t) up, 0); MU.insert(MU.begin() + up, 0); { Tracked tmp(val); *t = tmp; } MU[(size_t) up] = val; outcome = 1; }
+				else if (!fired) fail("refused-valid", "unique_array insert at %ld of %ld refused without allocation fault", up, un);
+				break;
+			}
+			case OP_X_TSET: {
+				bool ok; { Tracked tmp(val); Sut s(failn); ok = TA[h]->set(upos, tmp); fired = g.fired; }
+				bool valid = neg ? true : pos < usedn;
+				log.ev("X_TSET typed %d pos=%ld of %ld%s -> %d", h, upos, usedn, fired ? " allocfail" : "", (int) ok);
+				if (!valid) { if (ok) fail("accepted-invalid", "typed_array set at %ld accepted with %ld elements", upos, usedn); }
+				else if (ok) { MT[h][(size_t) apos] = val; outcome = 1; }
+				else if (!fired) fail("refused-valid", "typed_array set at %ld of %ld refused without allocation fault", upos, usedn);
+				Tracked *g0; { Sut s; g0 = TA[h]->get(upos); }
+				if (valid != (g0 != 0)) fail(valid ? "refused-valid" : "accepted-invalid", "typed_array get at %ld with %ld elements gives %s", upos, usedn, g0 ? "an element" : "nothing");
+				break;
+			}
+			case OP_X_RESIZE: {
+				long n = (long) ((size_t) op.c % 12);
+				bool ok; { Sut s(failn); ok = TA[h]->resize(n); fired = g.fired; }
+				log.ev("X_RESIZE typed %d to %ld (from %ld)%s -> %d", h, n, usedn, fired ? " allocfail" : "", (int) ok);
+				if (ok) { MT[h].resize((size_t) n, 0); outcome = 1; }
+				else if (!fired) fail("refused-valid", "typed_array resize to %ld refused without allocation fault", n);
+				break;
+			}
+			case OP_X_RESERVE: {
+				long n = (long) ((size_t) op.c % 20);
+				bool ok; { Sut s(failn); ok = TA[h]->reserve(n); fired = g.fired; }
+				log.ev("X_RESERVE typed %d %ld%s -> %d", h, n, fired ? " allocfail" : "", (int) ok);
+				// content stays, or is cut to the request when a new buffer had to be made
+				if ((long) MT[h].size() > n && TA[h]->length() == n) MT[h].resize((size_t) n);
+				outcome = ok;
+				break;
+			}
+			case OP_X_DETACH: {
+				bool ok; { Sut s(failn); ok = TA[h]->detach(); fired = g.fired; }
+				log.ev("X_DETACH typed %d%s -> %d", h, fired ? " allocfail" : "", (int) ok);
+				if (!ok && !fired) fail("refused-valid", "typed_array detach refused without allocation fault");
+				outcome = ok;
+				break;
+			}
+			case OP_X_MAP: {
+				operated = 4; int key = (int) (op.c % 5); int v = (int) (op.b % 3);
+				if (v == 0 || v == 1) {
+					bool ok; { Tracked tmp(val); Sut s(failn); ok = v == 0 ? MP->set(key, tmp) : MP->append(key, tmp); fired = g.fired; }
+					log.ev("X_MAP %s key %d%s -> %d", v == 0 ? "set" : "append", key, fired ? " allocfail" : "", (int) ok);
+					if (ok) { bool found = false; if (v == 0) for (auto &e : MM) if (e.first == key) { e.second = val; found = true; break; } if (!found) MM.emplace_back(key, val); outcome = 1; }
+					else if (!fired) fail("refused-valid", "map %s refused without allocation fault", v == 0 ? "set" : "append");
+				} else {
+					Tracked *g0; { Sut s; g0 = MP->get(key); }
+					const std::pair<int, uint32_t> *want = 0; for (auto &e : MM) if (e.first == key) { want = &e; break; }
+					log.ev("X_MAP get key %d -> %s", key, g0 ? "value" : "absent");
+					if ((g0 != 0) != (want != 0)) fail("wrong-content", "map get(%d) gives %s, model %s", key, g0 ? "a value" : "nothing", want ? "has one" : "has none");
+					if (g0 && (g0->magic != MAGIC || !T.live.count(g0->id) || T.live[g0->id] != want->second)) fail("wrong-content", "map get(%d) returns another entry's value or dead memory", key);
+				}
+				break;
+			}
+			case OP_X_PTRS: {
+				// pointer_array: null entries are dropped by compact, order of the others is kept
+				pointer_array<int> pa; static int cells[8]; std::vector<int *> mp;
+				int n = (int) (op.c % 7);
+				for (int i = 0; i < n; ++i) { int *v = ((op.c >> i) & 1) ? &cells[i] : 0; bool ok; { Sut s; ok = pa.insert(pa.length(), v); } if (!ok) fail("refused-valid", "pointer_array insert refused"); mp.push_back(v); }
+				pointer_array<int> pb; if (op.b & 1) { Sut s; pb = pa; }
+				{ Sut s; pa.compact(); }
+				std::vector<int *> want; for (int *v : mp) if (v) want.push_back(v);
+				if ((size_t) pa.length() != want.size()) fail("wrong-content", "pointer_array compact leaves %ld entries, %zu are non-null", pa.length(), want.size());
+				for (size_t i = 0; i < want.size(); ++i) if (pa.begin()[i] != want[i]) fail("wrong-content", "pointer_array compact changed the order at %zu", i);
+				if (op.b & 1) { if ((size_t) pb.length() != mp.size()) fail("other-handle-changed", "compact through one pointer_array changed the copy (%ld entries, was %zu)", pb.length(), mp.size()); for (size_t i = 0; i < mp.size(); ++i) if (pb.begin()[i] != mp[i]) fail("other-handle-changed", "compact through one pointer_array changed entry %zu of the copy", i); }
+				log.ev("X_PTRS %d entries -> %zu after compact", n, want.size());
+				outcome = (int) want.size();
+				operated = -1;
+				break;
+			}
+			}
+			if (fired) st.hit("fault:allocfail");
+			st.state(270 + op.kind, (fired ? 4 : 0) + (neg ? 2 : 0) + (pos > usedn ? 1 : 0) + 8 * (int) std::min<long>(usedn, 3), outcome);
+			verifyT(OPS[op.kind], operated);
+		}
+		for (auto &a : TA) { Sut s; delete a; a = 0; }
+		{ Sut s; delete UA; delete MP; }
+		check_pending();
+		if (!T.live.empty()) fail("element-leak", "%zu element(s) still alive after the last C++ container went away", T.live.size());
+		if (ledger_live()) fail("leak", "%zu block(s) still allocated after the last C++ container went away: %s", ledger_live(), ledger_describe().c_str());
+		st.hit("elements_constructed", T.inits); st.hit("elements_destroyed", T.finis);
 	}
 };
 
